@@ -226,14 +226,22 @@ func TestVerifNodex(t *testing.T) {
 		res.Evaluations = int64(len(rp.Path))
 		return
 	}
+	mine := 0
+	for ci := range cfgs {
+		if ci%run.Shards == run.Shard {
+			mine++
+		}
+	}
 	for ci, cfg := range cfgs {
 		if ci%run.Shards != run.Shard {
 			continue
 		}
+		mine--
 		if f := os.Getenv("VERIF_ONLY_CFG"); f != "" && !strings.Contains(cfg.Name, f) {
 			res.Cap("development filter VERIF_ONLY_CFG is set")
 			continue
 		}
+		restoreDeadline := run.Slice(mine + 1)
 		cfg, ci := cfg, ci
 		sub := verifkit.NewResult()
 		desc := newC(cfg)
@@ -266,6 +274,7 @@ func TestVerifNodex(t *testing.T) {
 		res.DistinctNontrivial += st.States
 		res.Extra["cfg:"+cfg.Name] = fmt.Sprintf("states=%d transitions=%d depth=%d fixpoint=%v", st.States, st.Transitions, st.Depth, st.Fixpoint)
 		res.Extra["bounds:"+cfg.Name] = verifkit.NonZeroFields(cfg)
+		restoreDeadline()
 	}
 }
 
